@@ -35,6 +35,9 @@ Cube(loglen) == [width |-> 1, log_len |-> loglen,
                  cols |-> << <<Term(1, <<C(0), C(0), C(0)>>), Term(1, <<P(0)>>)>> >>,
                  periodic |-> <<<<1, 2, 3, 4>>>>, init |-> <<3>>, exemptions |-> 2,
                  asserts |-> <<Single(0, 0), Single(0, 7)>>, aux |-> <<>>, meta |-> <<>>]
+\* next0 = c0^4 + p0                                   (degree 4: the AIR needs a blowup factor >= 4)
+Quart(loglen) == [Cube(loglen) EXCEPT !.cols = << <<Term(1, <<C(0), C(0), C(0), C(0)>>), Term(1, <<P(0)>>)>> >>,
+                                      !.init = <<2>>]
 
 Opt(q, b, g, e, f, r, cb, db, p, h) ==
   [queries |-> q, blowup |-> b, grind |-> g, ext |-> e, fold |-> f, rem |-> r, cbatch |-> cb, dbatch |-> db,
@@ -47,7 +50,7 @@ Case(desc, opts, field, hash, cc) == [desc |-> desc, opts |-> opts, field |-> fi
 QuickCases == <<
   Case(Lin2(4),        Opt(16, 8, 0, 1, 4, 7, 0, 0, 1, 1),  "f64",  "blake3_256", 1),
   Case(Aux2(3, 2, 2),  Opt(14, 16, 0, 2, 4, 3, 0, 1, 1, 1), "f64",  "rp64_256", 1),
-  Case(Cube(5),        Opt(10, 8, 0, 3, 2, 0, 2, 0, 1, 1),  "f62",  "rp62_248", 2)
+  Case(Quart(5),       Opt(10, 8, 0, 3, 2, 0, 2, 0, 1, 1),  "f62",  "rp62_248", 3)
 >>
 MoreCases == <<
   Case(Mul2(4, <<7, 8, 9>>), Opt(14, 8, 4, 2, 2, 3, 1, 2, 1, 1), "f128", "sha3_256", 1),
@@ -56,6 +59,7 @@ MoreCases == <<
   Case(Lin2(4),        Opt(20, 8, 0, 1, 4, 7, 1, 1, 1, 1),  "f128", "blake3_256", 1),
   Case(Aux2(4, 3, 1),  Opt(14, 8, 0, 3, 4, 3, 2, 2, 4, 2),  "f64",  "sha3_256", 1),
   Case(Cube(5),        Opt(14, 4, 2, 2, 2, 1, 0, 2, 1, 1),  "f62",  "blake3_256", 2),
+  Case(Cube(5),        Opt(10, 8, 0, 2, 4, 1, 1, 0, 1, 1),  "f62",  "rp62_248", 2),
   Case(Lin2(6),        Opt(9, 16, 0, 2, 16, 3, 0, 0, 1, 1), "f64",  "blake3_256", 1),
   Case(Mul2(5, <<1>>), Opt(11, 8, 0, 1, 8, 15, 0, 1, 3, 8), "f64",  "rp64_256", 1)
 >>
